@@ -1499,23 +1499,21 @@ func c20Server() (string, string) {
 		}
 		dir := filepath.Join("/var/tmp", "mobius-verif-c20-server-bin", sanitize(repo))
 		os.MkdirAll(dir, 0755)
-		bin := filepath.Join(dir, fmt.Sprintf("server-%d", os.Getpid()))
-		cmd := exec.Command("go", "build", "-o", bin, "./cmd/mobius-hotline-server")
+		// one binary per tree under test, replaced atomically (concurrent runs against the same tree build the same thing)
+		bin := filepath.Join(dir, "server")
+		tmp := filepath.Join(dir, fmt.Sprintf("server.build-%d", os.Getpid()))
+		cmd := exec.Command("go", "build", "-o", tmp, "./cmd/mobius-hotline-server")
 		cmd.Dir = repo
 		cmd.Env = append(os.Environ(), "GOFLAGS=-mod=readonly", "GOPROXY=off", "GOSUMDB=off", "GOTOOLCHAIN=local")
 		if out, err := cmd.CombinedOutput(); err != nil {
+			os.Remove(tmp)
 			c20ServerErr = "go build of the server failed: " + clip(string(out))
 			return
 		}
-		// older binaries of finished runs
-		if ents, err := os.ReadDir(dir); err == nil {
-			for _, e := range ents {
-				if e.Name() != filepath.Base(bin) {
-					if fi, err := e.Info(); err == nil && time.Since(fi.ModTime()) > time.Hour {
-						os.Remove(filepath.Join(dir, e.Name()))
-					}
-				}
-			}
+		if err := os.Rename(tmp, bin); err != nil {
+			os.Remove(tmp)
+			c20ServerErr = "cannot install the server binary: " + err.Error()
+			return
 		}
 		c20ServerBin = bin
 	})
